@@ -330,9 +330,15 @@ def evaluate(view, events, where=None, partial=False, packages=None):
                         pk = name
                 if pk is None:
                     raise Reject(at(i), 'bad-import')
-                if pk not in imported:
-                    imported.append(pk)
-                    view.add_component(packages[pk])
+                # a component may import further components (transitively, cycles allowed)
+                todo = [pk]
+                while todo:
+                    q = todo.pop()
+                    if q in imported:
+                        continue
+                    imported.append(q)
+                    view.add_component(packages[q])
+                    todo += list(packages[q].get('imports', ()))
             elif ev[0] == 'include':
                 raise Any()
         if partial:
